@@ -12,7 +12,8 @@ package main
 //   listener_closes_after_cancel   the listener does get closed (deadline)
 //   open_session_finishes          every open session completes its dialogue with the expected reply codes after cancel
 //   inflight_message_stored        the message of a session that was open at cancel is stored intact and was 250-acknowledged
-//   pop3_deletes_applied_on_quit   DELE … QUIT after cancel removes exactly the marked messages
+//   pop3_deletes_applied_on_quit   DELE … QUIT after cancel removes exactly the marked messages (here: every POP3 plan has its own mailbox; sessions that
+//                                  SHARE a mailbox, with overlapping DELE sets and other clients removing meanwhile: pop_conc.go, attached to this check)
 //   drain_not_before_sessions_end  Drain() has not returned while a session of that server is open
 //   drain_returns_after_last_session  … and does return (deadline) once the last one has ended
 //   hub_no_panic_after_cancel      (child process) stored events of in-flight messages reach the stopped hub: no panic
@@ -95,6 +96,7 @@ type c19Opts struct {
 	startScanner bool
 	startServers bool
 	monitorHist  int
+	popStore     func(storage.Store) storage.Store // what the POP3 server is handed instead of the store itself (a recording decorator)
 }
 
 func c19NewWorld(o c19Opts) (*c19World, error) {
@@ -135,7 +137,11 @@ func c19NewWorld(o c19Opts) (*c19World, error) {
 	}
 	if o.startServers {
 		w.smtp = smtp.NewServer(conf.SMTP, w.mgr, ap, w.ext)
-		w.pop3, err = pop3.NewServer(conf.POP3, w.store)
+		var popSt storage.Store = w.store
+		if o.popStore != nil {
+			popSt = o.popStore(w.store)
+		}
+		w.pop3, err = pop3.NewServer(conf.POP3, popSt)
 		if err != nil {
 			return nil, err
 		}
